@@ -23,7 +23,7 @@ def MAX_VARINT_PAYLOAD : Nat := 9
 def COINBASE_WITNESS_DATA_LEN : Nat := 32
 def COINBASE_WITNESS_PKSCRIPT_LEN : Nat := 38
 /-- IEEE-754 bits of `MinHighPriority = 1e8 * 144 / 250 = 57 600 000.0`. -/
-def MIN_HIGH_PRIORITY_BITS : Nat := 4733484666812235776
+def MIN_HIGH_PRIORITY_BITS : Nat := 4722999750989709312
 def LOCKTIME_THRESHOLD : Nat := 500000000
 def BASE_SUBSIDY : Nat := 5000000000
 def U32 : Nat := 4294967296
